@@ -50,7 +50,8 @@ Definition run_codec (op : bytes) (args : list bytes) : bytes :=
     then lit "OK " ++ hex (sanitize_name (H_ 0%nat))
   else if bytes_eqb op (lit "name_bytes") || bytes_eqb op (lit "name_fhed")
     then show_res hex (name_of_bytes (H_ 0%nat))
-  else if bytes_eqb op (lit "ref_str") then lit "OK " ++ hex (normalize_reference (H_ 0%nat))
+  else if bytes_eqb op (lit "ref_str") || bytes_eqb op (lit "ref_lossy") || bytes_eqb op (lit "ref_path")
+  then lit "OK " ++ hex (normalize_reference (H_ 0%nat))
   else if bytes_eqb op (lit "ty_bits") then
     let t := H_ 0%nat in
     lit "OK " ++ cat [showb (ty_is_critical t); showb (ty_is_private t); showb (ty_is_reserved t);
